@@ -38,6 +38,26 @@ def make_tt(rng, n, r, kind):
         Y = [np.round(2 * G) for G in Y]
     if kind == 'fortran':
         Y = [np.asfortranarray(G) for G in Y]
+    if kind in ('nearorth-L', 'nearorth-R'):
+        # cores that are orthonormal up to ~1e-6 (e.g. a tensor orthogonalised in lower precision, or rescaled slightly):
+        # close enough to pass a loose "already orthogonal" test, far from the 1e-9 the property is checked at
+        for k in range(d):
+            r1, nk, r2 = Y[k].shape
+            if kind == 'nearorth-L' and r1 * nk >= r2:
+                Q = np.linalg.qr(Y[k].reshape(r1 * nk, r2))[0]
+                Y[k] = (Q * (1 + 2e-6 * rng.choice([-1., 1.])) + 3e-9 * rng.normal(size=Q.shape)).reshape(r1, nk, r2)
+            elif kind == 'nearorth-R' and nk * r2 >= r1:
+                Q = np.linalg.qr(Y[k].reshape(r1, nk * r2).T)[0].T
+                Y[k] = (Q * (1 + 2e-6 * rng.choice([-1., 1.])) + 3e-9 * rng.normal(size=Q.shape)).reshape(r1, nk, r2)
+    if kind == 'shared':
+        # one ndarray object (Fortran-ordered) sits in every slot of the same shape: slots are rebound by the steps, the
+        # shared object itself must never be written
+        pool = {}
+        for k in range(d):
+            key = Y[k].shape
+            if key not in pool:
+                pool[key] = np.asfortranarray(Y[k])
+            Y[k] = pool[key]
     return Y
 
 
@@ -128,7 +148,46 @@ def run_program(ctx, n, hist, rng, kind, inplace):
         Y = Z
 
 
-KINDS = ['generic', 'deficient', 'scaled', 'integer', 'fortran']
+def check_shared(ctx, rng, count):
+    """Single steps on lists in which ONE ndarray object (Fortran- or C-ordered) fills every interior slot: an in-place
+    step rebinds two slots of the list and must leave the shared object itself - still referenced by the other slots -
+    untouched; a copying step must leave every slot alone."""
+    for t in range(count):
+        d = int(rng.integers(4, 8))
+        nk = int(rng.integers(1, 4))
+        rho = int(rng.choice([1, 1, 2, 3]))
+        order = 'F' if t % 3 else 'C'
+        G = np.array(rng.normal(size=(rho, nk, rho)), order=order)
+        A = np.array(rng.normal(size=(1, nk, rho)), order=order)
+        B = np.array(rng.normal(size=(rho, nk, 1)), order=order)
+        if rho == 1:
+            A = B = G
+        Y = [A] + [G] * (d - 2) + [B]
+        D0 = F.dense(Y)
+        scale = float(np.prod([np.linalg.norm(c_) for c_ in Y])) + 1e-300
+        op = ['left', 'right'][t % 2]
+        i = int(rng.integers(0, d - 1)) if op == 'left' else int(rng.integers(1, d))
+        inplace = bool((t // 2) % 2)
+        touched = {i, i + 1} if op == 'left' else {i - 1, i}
+        keep = [c_.copy() for c_ in Y]
+        objs = list(Y)
+        fn = teneva.orthogonalize_left if op == 'left' else teneva.orthogonalize_right
+        what = '%s(%d) %s on a list sharing one %s-ordered core object (d=%d, n=%d, rank %d)' % (op, i, 'inplace' if inplace else 'copy', order, d, nk, rho)
+        ctx.case(key=('shared', d, nk, rho, order, op, i, inplace), nontrivial=True)
+        Z = fn(Y, i, inplace=inplace)
+        if not ctx.check(F.is_wellformed(Z, [nk] * d), 'orth:wellformed', '%s: result malformed' % what):
+            continue
+        ok = all(np.array_equal(objs[k], keep[k]) for k in range(d))
+        ctx.check(ok, 'orth:frame', '%s: the shared core object was written to (it is still referenced by slots other than %s)' % (what, sorted(touched)),
+                  case={'d': d, 'n': nk, 'rho': rho, 'op': op, 'i': i, 'inplace': inplace, 'order': order})
+        if inplace:
+            ctx.check(Z is Y and all(Y[k] is objs[k] for k in range(d) if k not in touched), 'orth:frame', '%s: slots other than %s were rebound' % (what, sorted(touched)))
+        else:
+            ctx.check(Z is not Y and all(Y[k] is objs[k] for k in range(d)), 'orth:copy', '%s: the argument list was changed' % what)
+        ctx.check(dense_close(F.dense(Z), D0, scale), 'orth:dense', '%s: the denoted tensor changed' % what)
+
+
+KINDS = ['generic', 'deficient', 'scaled', 'integer', 'fortran', 'nearorth-L', 'shared', 'nearorth-R']
 
 
 def _prog_worker(task):
@@ -191,6 +250,7 @@ def run(ctx):
     kinds = KINDS
     from . import common
     common.pmap(ctx, _prog_worker, [(j, pr, int(ctx.seed * 1000003 + j)) for j, pr in enumerate(progs)])
+    check_shared(ctx, rng, 200 if quick else 2000)
     # traced sweeps with / without stabilisation
     trs, metas = [], []
     for t in range(240 if quick else 2000):
